@@ -1,124 +1,112 @@
+// Harness of property C07: own blocks validate; any deviation from re-execution is
+// rejected; a rejected block leaves no trace.
+//
+// Liveness direction: random chains are grown with the REAL worker
+// (GeneratePendingHeader over the real TxPool and inbound ETX queue); every block it
+// returns is sealed and given to the REAL validation path (ValidateBody, then
+// HeaderChain.SetCurrentHeader -> BodyDb.Append -> StateProcessor.Apply -> Process +
+// ValidateState). Monitor: accepted.
+// Safety direction: each accepted block is mutated in one component; every mutant is
+// validated on a second node opened on a copy of the pre-state. Monitors: rejected, the
+// database is unchanged by the rejected append, and after all rejected mutants the honest
+// block is still accepted and yields the same database as on the primary node.
+// Correspondence: (declared commitments, recomputed commitments observed from a separate
+// Process run, observed verdict class) are emitted as Coq cases for Model/C07.v.
 package main
 
 import (
-	"crypto/ecdsa"
 	"fmt"
-	"math/big"
 	"os"
+	"runtime/debug"
 
-	"github.com/dominant-strategies/go-quai/common"
-	"github.com/dominant-strategies/go-quai/core"
-	"github.com/dominant-strategies/go-quai/core/rawdb"
-	"github.com/dominant-strategies/go-quai/core/types"
-	"github.com/dominant-strategies/go-quai/crypto"
 	"github.com/dominant-strategies/go-quai/log"
-	"github.com/dominant-strategies/go-quai/params"
 	"verifharness/hlib"
 )
 
-var loc = common.Location{0, 0}
+const rule = "a case = one block offered to the real validation path (honest block assembled by the real worker, or one single-component mutant of it); " +
+	"non-trivial = honest block carrying transactions (distinct by chain kind, numbers of Quai/ETX/Qi transactions, outbound ETXs, gas) or a mutant (distinct by mutation class, verdict class and execution-error class)"
 
-type acct struct {
-	key  *ecdsa.PrivateKey
-	addr common.Address
-}
-
-func grind(tag string, n int) []acct {
-	var out []acct
-	for i := 0; len(out) < n; i++ {
-		k, err := crypto.ToECDSA(crypto.Keccak256([]byte(fmt.Sprintf("%s-%d", tag, i))))
-		if err != nil {
-			continue
-		}
-		a := crypto.PubkeyToAddress(k.PublicKey, loc)
-		if _, err := a.InternalAndQuaiAddress(); err != nil {
-			continue
-		}
-		out = append(out, acct{k, a})
+func runOne(rc *runCtx, w *world, idx int, rng *hlib.Rng, logger *log.Logger) {
+	cfg := cfgFor(idx)
+	c, err := newChain(w, cfg, rng, rc.rep, logger)
+	if err != nil {
+		rc.rep.Note("cannot create zone: " + err.Error())
+		return
 	}
-	return out
+	defer c.close()
+	last := rc.blocks
+	if rc.tgt != nil {
+		last = rc.tgt.block + 1
+	}
+	for i := 0; i < last; i++ {
+		stop := false
+		func() {
+			defer func() {
+				if p := recover(); p != nil {
+					if rc.verbose {
+						fmt.Println("PANIC", p, string(debug.Stack()))
+					}
+					rc.rep.Fail("harness-step-panic", fmt.Sprint("panic in block step: ", p), caseJSON{ID: caseID(idx, i, 0), Seed: rc.seed, Chain: idx, Blocks: rc.blocks, Block: i, Mutant: "honest"})
+					stop = true
+				}
+			}()
+			stop = c.step(rc, i)
+		}()
+		if stop {
+			break
+		}
+	}
 }
 
 func main() {
+	f := hlib.ParseFlags()
 	logger := hlib.QuietLogs()
 	if os.Getenv("VLOG") != "" {
 		log.Global.SetOutput(os.Stderr)
 	}
-	params.TimeToStartTx = 0
-	params.ControllerKickInBlock = 0
-	db := rawdb.NewMemoryDatabase(logger)
-	accts := grind("verif-c07", 6)
-	cb := accts[5].addr
-	qi := common.HexToAddress("0x0080000000000000000000000000000000000001", loc)
-	z, err := core.VerifNewZone(db, core.VerifZoneOptions{Location: loc, QuaiCoinbase: cb, QiCoinbase: qi, GenesisTime: 1000}, logger)
-	if err != nil {
-		fmt.Println("newzone:", err)
-		return
+	setupSchedule()
+	rep := hlib.NewReport("C07", rule)
+	cw := hlib.NewCaseWriter(f.Out, "From Coq Require Import List NArith Bool.\nFrom GQ Require Import Model.C07.\nImport ListNotations.\nLocal Open Scope N_scope.\n", "C07.case", 80)
+	w := newWorld(bigInt(1337))
+	rc := &runCtx{seed: f.Seed, rep: rep, cw: cw, verbose: os.Getenv("C07_VERBOSE") != ""}
+	// plan: N = total number of blocks, spread over chains of 40 (quick) / 60 (thorough) blocks
+	rc.blocks = 40
+	rc.mutPct = 45
+	rc.caseEvery = 3
+	if f.Tier == "thorough" {
+		rc.blocks = 60
+		rc.mutPct = 60
+		rc.caseEvery = 6
 	}
-	chainID := z.Config.ChainID
-	signer := types.NewSigner(chainID, loc)
-	fmt.Println("chainid", chainID)
-	var pending types.Transactions
-	nonces := map[int]uint64{}
-	foreign := common.HexToAddress("0x1000000000000000000000000000000000000007", common.Location{1, 0})
-	for i := 0; i < 30; i++ {
-		head := z.Hc.CurrentHeader()
-		// txs
-		if i >= 6 {
-			for s := 0; s < 3; s++ {
-				to := accts[(s+1)%5].addr
-				inner := &types.QuaiTx{ChainID: chainID, Nonce: nonces[s], GasPrice: new(big.Int).Add(new(big.Int).Mul(head.BaseFee(), big.NewInt(2)), big.NewInt(int64(1000*(s+1)))), Gas: 21000, To: &to, Value: big.NewInt(12345)}
-				tx, err := types.SignTx(types.NewTx(inner), signer, accts[s].key)
-				if err != nil {
-					fmt.Println("sign", err)
-					return
-				}
-				if err := z.Pool.AddLocal(tx); err != nil {
-					fmt.Println("  addlocal:", s, err)
-				} else {
-					nonces[s]++
-				}
-			}
+	if f.Replay != "" {
+		var cj caseJSON
+		hlib.ReadReplayCase(f.Replay, &cj)
+		rc.seed = cj.Seed
+		if cj.Blocks > 0 {
+			rc.blocks = cj.Blocks
 		}
-		b, err := z.Assemble(true)
-		if err != nil {
-			fmt.Println("assemble:", i, err)
-			return
+		m := cj.Mutant
+		if m == "honest-after-mutants" {
+			m = ""
 		}
-		b.WorkObjectHeader().SetHeaderHash(b.Header().Hash())
-		fmt.Println("assembled", b.NumberU64(common.ZONE_CTX), "out", len(b.OutboundEtxs()), "txs", len(b.Transactions()), "gaslimit", b.GasLimit(), "gasused", b.GasUsed(), "basefee", b.BaseFee(), "coinbase", b.PrimaryCoinbase().Hex(), "fees", b.TotalFees(), b.AvgTxFees())
-		if err := z.VerifyHeader(b); err != nil {
-			fmt.Println("  verifyheader:", err)
+		rc.tgt = &target{chain: cj.Chain, block: cj.Block, mutant: m}
+		rng := hlib.NewRng(rc.seed)
+		var cr *hlib.Rng
+		for i := 0; i <= cj.Chain; i++ {
+			cr = rng.Fork()
 		}
-		if err := z.ValidateBody(b); err != nil {
-			fmt.Println("  validatebody:", err)
+		runOne(rc, w, cj.Chain, cr, logger)
+	} else {
+		nChains := (f.N + rc.blocks - 1) / rc.blocks
+		if nChains < 1 {
+			nChains = 1
 		}
-		if err := z.Append(b); err != nil {
-			fmt.Println("append:", i, err)
-			return
+		rng := hlib.NewRng(f.Seed)
+		for i := 0; i < nChains; i++ {
+			runOne(rc, w, i, rng.Fork(), logger)
 		}
-		z.VerifC07PoolReset(head, b)
-		pending = append(pending, b.OutboundEtxs()...)
-		if i%3 == 2 {
-			in := append(types.Transactions{}, pending...)
-			if i == 2 {
-				for k := 0; k < 5; k++ {
-					to := accts[k].addr
-					var oh common.Hash
-					oh[0] = 0x10
-					oh[2] = 0x10
-					oh[31] = byte(k + 1)
-					in = append(in, types.NewTx(&types.ExternalTx{To: &to, Gas: 200000, Value: new(big.Int).Mul(big.NewInt(1e18), big.NewInt(100)), EtxType: types.DefaultType, OriginatingTxHash: oh, ETXIndex: uint16(k), Sender: foreign}))
-				}
-			}
-			rawdb.WriteInboundEtxs(db, b.Hash(), in)
-			pending = nil
-		}
-		for _, r := range z.Processor().GetReceiptsByHash(b.Hash()) {
-			fmt.Println("   receipt type", r.Type, "status", r.Status, "gas", r.GasUsed, "etxs", len(r.OutboundEtxs))
-		}
-		st, _ := z.StateAt(b)
-		ia, _ := accts[0].addr.InternalAndQuaiAddress()
-		fmt.Println(" utxo set size", rawdb.ReadUTXOSetSize(db, b.Hash()), "bal0", st.GetBalance(ia), "nonce0", st.GetNonce(ia))
 	}
+	cw.Close()
+	rep.Note("schedule scaled to a test network before any zone is created: TimeToStartTx=0, ControllerKickInBlock=0, CoinbaseLockupPrecompileKickInHeight=0, ConversionLockPeriod=2, LockupByteToBlockDepth={2,4,6,8}, CoinbaseEpochBlocks=4, TrimDepths=3..8")
+	rep.Write(f.Out)
 }
